@@ -28,11 +28,13 @@ def n_padded(npts, p2_plus=0):
 
 
 def zero_pad(x, N):
-    """The record followed by zeros up to N points (N >= len(x))."""
-    x = np.asarray(x, dtype=float)
+    """The record followed by zeros up to N points (N >= len(x)). A complex record (what the inverse helper returns)
+    stays complex; the definition of the transform is the same sum."""
+    x = np.asarray(x)
+    x = x.astype(complex) if x.dtype.kind == 'c' else x.astype(float)
     if N < len(x):
         raise ValueError('N < npts is truncation, not zero padding')
-    out = np.zeros(N)
+    out = np.zeros(N, dtype=x.dtype)
     out[:len(x)] = x
     return out
 
@@ -45,6 +47,15 @@ def dft_bin(x_pad, k):
     for j in range(N):
         m = (j * k) % N
         s += float(x_pad[j]) * cmath.exp(-2j * math.pi * m / N)
+    return s
+
+
+def dft_bin_complex(x_pad, k):
+    """Scalar definition of one DFT bin for a complex record."""
+    N = len(x_pad)
+    s = 0j
+    for j in range(N):
+        s += complex(x_pad[j]) * cmath.exp(-2j * math.pi * ((j * k) % N) / N)
     return s
 
 
@@ -131,6 +142,9 @@ def selftest():
         lhs, rhs = parseval_sides(xo, 0.1, 0.1 * dft_bins(xo, range(len(xo) // 2)))
         assert abs(lhs - rhs) <= 1e-12 * max(lhs, 1e-300), ('parseval odd', N)
     assert [ceil_log2(n) for n in (1, 2, 3, 4, 5, 8, 9, 1024, 1025)] == [0, 1, 2, 2, 3, 3, 4, 10, 11]
+    z = rng.normal(size=9) + 1j * rng.normal(size=9)
+    zp = zero_pad(z, 12)
+    assert zp.dtype.kind == 'c' and np.max(np.abs(dft_bins(zp, range(12)) - np.array([dft_bin_complex(zp, k) for k in range(12)]))) <= 1e-12
     assert n_padded(100) == 128 and n_padded(128) == 128 and n_padded(129, 2) == 1024
     x = np.array([1.0, 2.0, 4.0, -3.0])
     assert np.allclose(minus_mean_and_nyquist(x), x - 1.0 - 1.5 * np.array([1, -1, 1, -1.0]))
